@@ -364,15 +364,22 @@ func c47(r *vkit.Run) {
 	_ = bfe_module.HandleForward
 
 	var cases []*c47Case
+	var bpCases []*c47BPCase
 	if r.Replay != "" {
 		var w struct {
-			Case c47Case `json:"case"`
+			Case   *c47Case   `json:"case"`
+			BPCase *c47BPCase `json:"bp_case"`
 		}
 		if err := r.LoadReplay(&w); err != nil {
 			r.Inconclusive(err.Error())
 			return
 		}
-		cases = append(cases, &w.Case)
+		if w.Case != nil {
+			cases = append(cases, w.Case)
+		}
+		if w.BPCase != nil {
+			bpCases = append(bpCases, w.BPCase)
+		}
 		r.SetMinDistinct(0)
 	} else {
 		n := r.N(240, 8000)
@@ -383,6 +390,11 @@ func c47(r *vkit.Run) {
 		nf := r.N(150, 2000)
 		for i := 0; i < nf; i++ {
 			cases = append(cases, c47GenFinal(r.Rng("final", i), n+i))
+		}
+		// third family (c47bp.go, own generator stream): close propagation under back-pressure
+		nb := r.N(48, 480)
+		for i := 0; i < nb; i++ {
+			bpCases = append(bpCases, c47BPGen(r.Rng("backpressure", i), n+nf+i, i))
 		}
 	}
 
@@ -672,6 +684,8 @@ func c47(r *vkit.Run) {
 		}
 	}
 	vkit.Parallel(len(cases), 12, func(i int) { run(cases[i]) })
+	env := &c47Env{r: r, wsB: wsB, stB: stB, dialClient: dialClient, controlRoundTrip: controlRoundTrip}
+	vkit.Parallel(len(bpCases), 12, func(i int) { env.runBP(bpCases[i]) })
 
 	bmu.Lock()
 	_ = seenB
@@ -703,6 +717,7 @@ func c47(r *vkit.Run) {
 		r.Violation("panic-counter:tunnel", fmt.Sprintf("WebSocketPanicConn=%d StreamPanicConn=%d", ws, st), nil)
 	}
 	if r.Replay == "" {
+		c47BPFinish(r)
 		for _, k := range []string{"ws", "wss", "stream"} {
 			for _, cl := range []string{"client", "backend"} {
 				if r.Counter("last_write_with_close:"+k+":"+cl+"-closes") == 0 {
